@@ -8,8 +8,10 @@ cd "$V"
 mkdir -p build
 S=$(mktemp -d /tmp/verif-e4-XXXXXX)
 trap 'rm -rf "$S"' EXIT
-go run ./interleave/rewrite /repo "$V/interleave/simsync" "$S/repo" >/dev/null
+REPO="${VERIF_REPO:-/repo}"
+OUT="${VERIF_BUILD_OUT:-$V/build}"
+go run ./interleave/rewrite "$REPO" "$V/interleave/simsync" "$S/repo" >/dev/null
 # an alternative go.mod: same requirements, the library replaced by the rewritten copy
 sed "s#=> /repo#=> $S/repo#" go.mod > "$S/go.mod"
 cp go.sum "$S/go.sum"
-go test -c -race -vet=off -tags "verif interleave" -modfile="$S/go.mod" -o build/interleave.test ./interleave/harness
+go test -c -race -vet=off -tags "verif interleave" -modfile="$S/go.mod" -o "$OUT/interleave.test" ./interleave/harness
